@@ -55,7 +55,7 @@ REQUIRED_FEATURES = [
     "obj:pp", "obj:table", "obj:recfmt", "obj:ghist", "obj:hdoc",
     "how:global", "how:conf", "how:no_color", "how:palette-class", "how:palette-object",
     "hist:drop", "hist:glob", "hist:config-recreated", "iter:suspended-across-op", "iter:by-lines",
-    "merge:interleaved", "static:colored-differs-per-config", "static:strip-eq-no_color", "reset:orders-agree",
+    "merge:interleaved", "static:colored-differs-per-config", "static:palette-class-differs", "static:strip-eq-no_color", "reset:orders-agree",
 ]
 
 # ------------------------------------------------------------------------------------ alphabet
@@ -81,12 +81,23 @@ _EXTRA_T = ([["r", "tbl", h] for h in ("cN", "pcA", "pcB", "ponc")] +
              ["drop", "N"]])
 
 
-def alphabet(tier, extended=False):
+# the operations explored one level deeper in the thorough tier (histories of exactly 4 operations)
+_CORE = ([["r", "tbl", h] for h in ("g", "cA", "cB", "nc", "pc", "po")] +
+         [["r", "pp", "g"], ["r", "pp", "cA"], ["r", "rec1", "g"], ["r", "rec1", "cA"], ["r", "rec1", "cB"],
+          ["r", "gh", "g"], ["r", "gh", "cA"], ["r", "hd", "g"],
+          ["o", "tbl", "cA"], ["o", "tbl", "g"], ["f"], ["l", "tbl", "cA"],
+          ["drop", "A"], ["drop", "B"], ["glob", "A"], ["glob", "B"], ["glob", "N"], ["glob", "-"]])
+
+
+def alphabet(name):
+    """'base' (quick tier), 'ext' (thorough, superset of base), 'core' (thorough, subset of base)."""
+    if name == "core":
+        return [list(c) for c in _CORE]
     ops = [["r", o, h] for o, hows in _RENDER_Q.items() for h in hows]
     ops += [["l", o, h] for o, h in _LINES_Q]
     ops += [["o", o, h] for o, h in _OPEN_Q]
     ops += [list(c) for c in _CONTROL]
-    if extended:
+    if name == "ext":
         ops += [list(c) for c in _EXTRA_T]
     return ops
 
@@ -97,32 +108,33 @@ _SPLIT = 4            # second-operation classes per first operation (shard gran
 
 
 def bounds(tier):
-    q = alphabet(tier)
     b = {"objects": sorted(R.OBJECT_KINDS), "configurations": sorted(R.CONF_SPECS),
-         "operations": len(q), "history_depth": 3 if tier == "quick" else 4,
          "merge": {"table": "tbl_s (7 lines)", "pairs": len(_MERGE_PAIRS),
                    "prefixes": 1 if tier == "quick" else len(_MERGE_PREFIX), "orders_per_pair": 3432},
          "id_policy": "adversarial: lowest free slot, freed when the object dies",
          "static_entries": len(R.reference_requests())}
-    if tier == "thorough":
-        b["extended_operations"] = len(alphabet(tier, True))
-        b["extended_history_depth"] = 3
+    if tier == "quick":
+        b["histories"] = [{"operations": len(alphabet("base")), "length": "1..3"}]
+    else:
+        b["histories"] = [{"operations": len(alphabet("ext")), "length": "1..3"},
+                          {"operations": len(alphabet("core")), "length": "4"}]
     return b
 
 
 def shards(tier):
     _reference()                      # computed once, in fresh processes, before the workers are forked
     sh = [("static",), ("reset", 0), ("reset", 1)]
-    n = len(alphabet(tier))
-    depth = 3 if tier == "quick" else 4
-    for i in range(n):
-        for j in range(_SPLIT):
-            sh.append(("hist", depth, False, i, j))
-    if tier == "thorough":
-        n2 = len(alphabet(tier, True))
-        for i in range(n2):
-            for j in range(2):
-                sh.append(("hist", 3, True, i, j))
+    if tier == "quick":
+        for i in range(len(alphabet("base"))):
+            for j in range(_SPLIT):
+                sh.append(("hist", "base", 1, 3, i, j, _SPLIT))
+    else:
+        for i in range(len(alphabet("ext"))):
+            for j in range(3):
+                sh.append(("hist", "ext", 1, 3, i, j, 3))
+        for i in range(len(alphabet("core"))):
+            for j in range(6):
+                sh.append(("hist", "core", 4, 4, i, j, 6))
     prefixes = range(1) if tier == "quick" else range(len(_MERGE_PREFIX))
     for pi in range(len(_MERGE_PAIRS)):
         for xi in prefixes:
@@ -139,7 +151,12 @@ def _reference():
     global _REF
     if _REF is None:
         reqs = R.reference_requests()
-        res = R.pristine(reqs, repo=core.REPO)
+        try:
+            res = R.pristine(reqs, repo=core.REPO)
+        except Exception as e:  # noqa
+            # without pristine renderings nothing can be judged: a harness error, never a verdict
+            print(f"HARNESS-ERROR: C10 cannot obtain the pristine reference renderings: {e}")
+            raise SystemExit(2)
         _REF = {R.req_key(q): r for q, r in zip(reqs, res)}
     return _REF
 
@@ -252,12 +269,19 @@ def _diff(a, b):
 
 
 # ------------------------------------------------------------------------------------ shards
-def run_history(ops, acc, w, extended=False):
+def run_history(ops, acc, w):
     case = {"kind": "hist", "ops": ops, "ids": "adversarial"}
     try:
         obs, suspended = w.run(ops)
     except H.HistoryDisabled:
         acc.feat("disabled-at-run-time")
+        return
+    except Exception as e:  # noqa  -- every operation of the alphabet works in a pristine world (static shard)
+        acc.trans(w.n_ops)
+        acc.violation(f"C10:rendering-raises-after-history:{type(e).__name__}", case,
+                      "an operation that works in a pristine process raised at the end of / during this history",
+                      f"{type(e).__name__}: {e}"[:400], "a rendering")
+        acc.case(nontrivial=len(ops) >= 2, features=["len:%d" % len(ops)], outcome="viol:raises")
         return
     acc.trans(w.n_ops + len(obs))
     case["_global_spec"] = w.global_spec
@@ -289,26 +313,23 @@ def run_history(ops, acc, w, extended=False):
 
 
 def _hist_shard(shard, acc):
-    _, depth, extended, i, j = shard
+    """All enabled histories with minlen <= length <= maxlen that start with operation i and whose
+    second operation has index = j modulo split (the one-operation history goes with j == 0)."""
+    _, alpha, minlen, maxlen, i, j, split = shard
     w = H.world()
-    ops_all = alphabet("thorough" if extended else "quick", extended)
+    ops_all = alphabet(alpha)
     first = ops_all[i]
-    if j == 0 and enabled([first]):
+    if j == 0 and minlen <= 1 and enabled([first]):
         run_history([first], acc, w)
-    if depth < 2:
-        return
-    split = 2 if extended else _SPLIT
     for k2, second in enumerate(ops_all):
         if k2 % split != j:
             continue
         base = [first, second]
-        if enabled(base):
+        if minlen <= 2 <= maxlen and enabled(base):
             run_history(base, acc, w)
-        for rest_len in range(1, depth - 1):
+        for rest_len in range(max(1, minlen - 2), maxlen - 1):
             for rest in itertools.product(ops_all, repeat=rest_len):
                 ops = base + [list(r) for r in rest]
-                if extended and not any(op in _EXTRA_T for op in ops):
-                    continue              # already covered by the deeper search over the basic alphabet
                 if not enabled(ops):
                     continue
                 run_history(ops, acc, w)
@@ -351,17 +372,18 @@ def _static_shard(acc):
     ref = _reference()
     for key in sorted(ref):
         check_static(key, ref, acc)
-    # vacuity guard: the configurations must actually be distinguishable on every object
+    # vacuity guard: the configurations (and the alternative palette classes) must be distinguishable;
+    # counted per object -- REQUIRED_FEATURES makes the run fail as vacuous if none is
     for name in R.OBJECT_KINDS:
         route = "global" if R.OBJECT_KINDS[name] == "hdoc" else "explicit"
         texts = [ref[(name, s, "std", route)]["whole"] for s in R.COLORED_SPECS]
         if len(set(texts)) == len(texts) and all(R.ESC in t for t in texts):
             acc.feat("static:colored-differs-per-config")
         else:
-            raise RuntimeError(f"configurations D/A/B do not give three different colored renderings of {name}")
+            acc.feat("static:configs-not-distinguishable:" + name)
         if name in R.HAS_PALETTE_CLASS:
-            if ref[(name, "A", "pc", "explicit")]["whole"] == ref[(name, "A", "std", "explicit")]["whole"]:
-                raise RuntimeError(f"the alternative palette class changes nothing for {name}")
+            if ref[(name, "A", "pc", "explicit")]["whole"] != ref[(name, "A", "std", "explicit")]["whole"]:
+                acc.feat("static:palette-class-differs")
 
 
 def check_static(key, ref, acc):
@@ -392,6 +414,13 @@ def check_static(key, ref, acc):
             acc.violation(f"C10:lines-vs-whole:{kind}", case, "line-by-line consumption differs from the whole text",
                           _diff(joined, whole), _diff(whole, joined))
             label = "viol:lines"
+        if ent["lines_str"] != ent["lines"]:
+            # the items of the iterator are not text-like: str(line) is not the line's text
+            acc.violation(f"C10:line-object-not-text:{kind}", case,
+                          "str() of the items delivered by the line iterator, joined, is not the whole text "
+                          "(items are not CHText objects)",
+                          [x[:120] for x in _diff("\n".join(ent["lines_str"]), whole)][:3], _diff(whole, "")[:3])
+            label = "viol:line-object"
     if route == "global" and kind != "hdoc" and spec != "nc":
         other = ref[(name, spec, variant, "explicit")]["whole"]
         feats.append("how:global")
@@ -406,7 +435,7 @@ def check_static(key, ref, acc):
 def _reset_shard(shard, acc):
     """Harness self check: same histories, two visiting orders, same observations."""
     w = H.world()
-    ops_all = alphabet("quick")
+    ops_all = alphabet("base")
     half = shard[1]
     hists = [[a, b] for ia, a in enumerate(ops_all) for b in ops_all if ia % 2 == half and enabled([a, b])]
     runs = []
